@@ -126,6 +126,45 @@ theorem PES_unpack_headerless (s t : PES) (h : PES_WF s) (hs : s.pkt.sync = 0x47
     rw [drop_append_len _ _ _ (by simp)]; simp [PES_tail, hext]
   simp [hdrop]
 
+/-- the same when fewer than 3 bytes follow the 6-byte prefix (a short header-less packet filled by adaptation
+    stuffing): since the `fix:` commit da005f6 the decoder does not peek for the optional header there -/
+theorem PES_unpack_headerless_short (s t : PES) (h : PES_WF s) (hs : s.pkt.sync = 0x47)
+    (hafc : s.pkt.adaption_ctrl = 1 ∨ s.pkt.adaption_ctrl = 3) (hne : PES.ext s = none)
+    (h8 : (PES_tail s).length < 3) :
+    PES.unpack t (Pkt_bytes (PES_pkt s)) =
+      ({ pkt := Pkt_decoded (PES_pkt s), streamid := s.streamid, pesdata := s.pesdata ++ Pkt_stuffing (PES_pkt s),
+         extension_w1 := none, extension_w2 := none, header_data := none }, .ok ()) := by
+  obtain ⟨hw, hsid, hl, hx⟩ := h
+  have hwp : Pkt_WF (PES_pkt s) := hw
+  have h2af : (PES_pkt s).adaption_ctrl = 2 → (PES_pkt s).adaption_field.isSome = true := by
+    intro c; have : s.pkt.adaption_ctrl = 2 := c; omega
+  have hpl := PES_decoded_payload s hafc
+  have hext : PES_extBytes s = [] := by simp [PES_extBytes, PES_ext, hne]
+  unfold PES.unpack
+  rw [Pkt_unpack_bytes (PES_pkt s) t.pkt hwp hs h2af]
+  simp only [hpl]
+  have hfit : Fits PES_unpack_fmt0.codes [0, 1, s.streamid, PES_len s] := by
+    simp [Fits, PES_unpack_fmt0, Code.bound]; omega
+  have h0 : structUnpackFrom PES_unpack_fmt0 (PES_prefix s ++ PES_tail s) 0 = .ok [0, 1, s.streamid, PES_len s] := by
+    have := structUnpackFrom_enc0 PES_unpack_fmt0 [0, 1, s.streamid, PES_len s] (PES_tail s) hfit
+    simpa [encCodes, PES_unpack_fmt0, Code.size, PES_prefix, List.append_assoc] using this
+  have hlt : (PES_prefix s ++ PES_tail s).length < 9 := by simp; omega
+  simp only [h0, hlt, if_true]
+  have hdrop : List.drop 6 (PES_prefix s ++ PES_tail s) = s.pesdata ++ Pkt_stuffing (PES_pkt s) := by
+    rw [drop_append_len _ _ _ (by simp)]; simp [PES_tail, hext]
+  simp [hdrop]
+
+/-- header-less packets of every size: the heuristic must not fire when there is room for it to look -/
+theorem PES_unpack_headerless_any (s t : PES) (h : PES_WF s) (hs : s.pkt.sync = 0x47)
+    (hafc : s.pkt.adaption_ctrl = 1 ∨ s.pkt.adaption_ctrl = 3) (hne : PES.ext s = none)
+    (hnl : 3 ≤ (PES_tail s).length → ¬ looksLikeHeader s) :
+    PES.unpack t (Pkt_bytes (PES_pkt s)) =
+      ({ pkt := Pkt_decoded (PES_pkt s), streamid := s.streamid, pesdata := s.pesdata ++ Pkt_stuffing (PES_pkt s),
+         extension_w1 := none, extension_w2 := none, header_data := none }, .ok ()) := by
+  by_cases h9 : 3 ≤ (PES_tail s).length
+  · exact PES_unpack_headerless s t h hs hafc hne h9 (hnl h9)
+  · exact PES_unpack_headerless_short s t h hs hafc hne (by omega)
+
 /-- decoding a packed PES packet WITH the optional header: recognised when the first flag byte has
     high nibble 8 and the PES packet fills the TS packet exactly; all fields come back -/
 theorem PES_unpack_header (s t : PES) (h : PES_WF s) (hs : s.pkt.sync = 0x47)
@@ -161,7 +200,10 @@ theorem PES_unpack_header (s t : PES) (h : PES_WF s) (hs : s.pkt.sync = 0x47)
   have h2 : structUnpackFrom PES_unpack_fmt2 (PES_prefix s ++ PES_tail s) 6 = .ok [w1, w2, hd.length] := h1
   have hlen : (PES_prefix s ++ PES_tail s).length = PES_len s + 6 := by
     simp [PES_tail, PES_len, hst]; omega
-  simp only [h0, h1, h2, hw1, hlen]
+  have h3 : ¬ (PES_len s + 6 < 9) := by
+    have : 3 ≤ PES_len s := by simp [PES_len, hext]; omega
+    omega
+  simp only [h0, h1, h2, hw1, hlen, h3, if_false]
   have hsl : slice (PES_prefix s ++ PES_tail s) 9 (9 + hd.length) = hd := by
     rw [htail, ← List.append_assoc (encInt true 1 w2), ← List.append_assoc (encInt true 1 w1),
       ← List.append_assoc (PES_prefix s)]
